@@ -7,12 +7,18 @@ gen/Facts_escapers.vos gen/Facts_escapers.vok gen/Facts_escapers.required_vos: g
 gen/Facts_vm.vo gen/Facts_vm.glob gen/Facts_vm.v.beautified gen/Facts_vm.required_vo: gen/Facts_vm.v 
 gen/Facts_vm.vio: gen/Facts_vm.v 
 gen/Facts_vm.vos gen/Facts_vm.vok gen/Facts_vm.required_vos: gen/Facts_vm.v 
+gen/Facts_vm_sites.vo gen/Facts_vm_sites.glob gen/Facts_vm_sites.v.beautified gen/Facts_vm_sites.required_vo: gen/Facts_vm_sites.v 
+gen/Facts_vm_sites.vio: gen/Facts_vm_sites.v 
+gen/Facts_vm_sites.vos gen/Facts_vm_sites.vok gen/Facts_vm_sites.required_vos: gen/Facts_vm_sites.v 
 lib/Bytes.vo lib/Bytes.glob lib/Bytes.v.beautified lib/Bytes.required_vo: lib/Bytes.v 
 lib/Bytes.vio: lib/Bytes.v 
 lib/Bytes.vos lib/Bytes.vok lib/Bytes.required_vos: lib/Bytes.v 
 lib/Utf8.vo lib/Utf8.glob lib/Utf8.v.beautified lib/Utf8.required_vo: lib/Utf8.v lib/Bytes.vo
 lib/Utf8.vio: lib/Utf8.v lib/Bytes.vio
 lib/Utf8.vos lib/Utf8.vok lib/Utf8.required_vos: lib/Utf8.v lib/Bytes.vos
+model/CancelM.vo model/CancelM.glob model/CancelM.v.beautified model/CancelM.required_vo: model/CancelM.v gen/Facts_vm_sites.vo
+model/CancelM.vio: model/CancelM.v gen/Facts_vm_sites.vio
+model/CancelM.vos model/CancelM.vok model/CancelM.required_vos: model/CancelM.v gen/Facts_vm_sites.vos
 model/FramesCodec.vo model/FramesCodec.glob model/FramesCodec.v.beautified model/FramesCodec.required_vo: model/FramesCodec.v model/FramesM.vo
 model/FramesCodec.vio: model/FramesCodec.v model/FramesM.vio
 model/FramesCodec.vos model/FramesCodec.vok model/FramesCodec.required_vos: model/FramesCodec.v model/FramesM.vos
@@ -25,6 +31,9 @@ model/HTMLEscapeM.vos model/HTMLEscapeM.vok model/HTMLEscapeM.required_vos: mode
 model/HtmlDecode.vo model/HtmlDecode.glob model/HtmlDecode.v.beautified model/HtmlDecode.required_vo: model/HtmlDecode.v lib/Bytes.vo lib/Utf8.vo
 model/HtmlDecode.vio: model/HtmlDecode.v lib/Bytes.vio lib/Utf8.vio
 model/HtmlDecode.vos model/HtmlDecode.vok model/HtmlDecode.required_vos: model/HtmlDecode.v lib/Bytes.vos lib/Utf8.vos
+proofs/Cancel_proofs.vo proofs/Cancel_proofs.glob proofs/Cancel_proofs.v.beautified proofs/Cancel_proofs.required_vo: proofs/Cancel_proofs.v gen/Facts_vm_sites.vo model/CancelM.vo
+proofs/Cancel_proofs.vio: proofs/Cancel_proofs.v gen/Facts_vm_sites.vio model/CancelM.vio
+proofs/Cancel_proofs.vos proofs/Cancel_proofs.vok proofs/Cancel_proofs.required_vos: proofs/Cancel_proofs.v gen/Facts_vm_sites.vos model/CancelM.vos
 proofs/Frames_lifo.vo proofs/Frames_lifo.glob proofs/Frames_lifo.v.beautified proofs/Frames_lifo.required_vo: proofs/Frames_lifo.v model/FramesM.vo
 proofs/Frames_lifo.vio: proofs/Frames_lifo.v model/FramesM.vio
 proofs/Frames_lifo.vos proofs/Frames_lifo.vok proofs/Frames_lifo.required_vos: proofs/Frames_lifo.v model/FramesM.vos
@@ -37,6 +46,9 @@ proofs/HTMLEscape_proofs.vos proofs/HTMLEscape_proofs.vok proofs/HTMLEscape_proo
 proofs/HtmlDecode_proofs.vo proofs/HtmlDecode_proofs.glob proofs/HtmlDecode_proofs.v.beautified proofs/HtmlDecode_proofs.required_vo: proofs/HtmlDecode_proofs.v lib/Bytes.vo lib/Utf8.vo model/HtmlDecode.vo
 proofs/HtmlDecode_proofs.vio: proofs/HtmlDecode_proofs.v lib/Bytes.vio lib/Utf8.vio model/HtmlDecode.vio
 proofs/HtmlDecode_proofs.vos proofs/HtmlDecode_proofs.vok proofs/HtmlDecode_proofs.required_vos: proofs/HtmlDecode_proofs.v lib/Bytes.vos lib/Utf8.vos model/HtmlDecode.vos
+props/C11.vo props/C11.glob props/C11.v.beautified props/C11.required_vo: props/C11.v gen/Facts_vm_sites.vo model/CancelM.vo proofs/Cancel_proofs.vo
+props/C11.vio: props/C11.v gen/Facts_vm_sites.vio model/CancelM.vio proofs/Cancel_proofs.vio
+props/C11.vos props/C11.vok props/C11.required_vos: props/C11.v gen/Facts_vm_sites.vos model/CancelM.vos proofs/Cancel_proofs.vos
 props/C12.vo props/C12.glob props/C12.v.beautified props/C12.required_vo: props/C12.v gen/Facts_vm.vo model/FramesM.vo proofs/Frames_proofs.vo proofs/Frames_lifo.vo
 props/C12.vio: props/C12.v gen/Facts_vm.vio model/FramesM.vio proofs/Frames_proofs.vio proofs/Frames_lifo.vio
 props/C12.vos props/C12.vok props/C12.required_vos: props/C12.v gen/Facts_vm.vos model/FramesM.vos proofs/Frames_proofs.vos proofs/Frames_lifo.vos
